@@ -126,10 +126,15 @@ impl<'p> Evaluator<'_, 'p> {
                 self.array_stack.push(Vec::new());
                 self.state_stack.push(State::ArrayToValue);
 
-                for item in array.iter().rev() {
+                for (i, item) in array.iter().enumerate().rev() {
+                    self.push_trace_item(TraceItem::ArrayItem {
+                        span: None,
+                        index: i,
+                    });
                     self.state_stack.push(State::StdPruneArrayItem);
                     self.state_stack.push(State::StdPruneValue);
                     self.state_stack.push(State::DoThunk(item.view()));
+                    self.delay_trace_item();
                 }
             }
             ValueData::Object(object) => {
@@ -145,10 +150,15 @@ impl<'p> Evaluator<'_, 'p> {
                         .find_object_field_thunk(&object, 0, field_name)
                         .unwrap();
 
+                    self.push_trace_item(TraceItem::ObjectField {
+                        span: None,
+                        name: field_name,
+                    });
                     self.state_stack
                         .push(State::StdPruneObjectField { name: field_name });
                     self.state_stack.push(State::StdPruneValue);
                     self.state_stack.push(State::DoThunk(field_thunk));
+                    self.delay_trace_item();
                 }
 
                 self.check_object_asserts(&object);
@@ -1466,8 +1476,9 @@ impl<'p> Evaluator<'_, 'p> {
             .push(State::AppendToString(format!("</{tag}>")));
 
         if let Some(item1) = array.get(1) {
-            for item in array[2..].iter().rev() {
-                self.state_stack.push(State::StdManifestXmlJsonmlItemN);
+            for (i, item) in array.iter().enumerate().skip(2).rev() {
+                self.state_stack
+                    .push(State::StdManifestXmlJsonmlItemN { index: i });
                 self.state_stack.push(State::DoThunk(item.view()));
             }
             self.state_stack.push(State::StdManifestXmlJsonmlItem1);
@@ -1492,7 +1503,12 @@ impl<'p> Evaluator<'_, 'p> {
                 let result = self.string_stack.last_mut().unwrap();
                 result.push('>');
 
+                self.push_trace_item(TraceItem::ArrayItem {
+                    span: None,
+                    index: 1,
+                });
                 self.prepare_manifest_xml_jsonml_array(array.view())?;
+                self.delay_trace_item();
                 Ok(())
             }
             ValueData::Object(object) => {
@@ -1526,7 +1542,7 @@ impl<'p> Evaluator<'_, 'p> {
         }
     }
 
-    pub(super) fn do_std_manifest_xml_jsonml_item_n(&mut self) -> EvalResult<()> {
+    pub(super) fn do_std_manifest_xml_jsonml_item_n(&mut self, index: usize) -> EvalResult<()> {
         let item_value = self.value_stack.pop().unwrap();
         match item_value {
             ValueData::String(s) => {
@@ -1534,7 +1550,12 @@ impl<'p> Evaluator<'_, 'p> {
                 result.push_str(&s);
                 Ok(())
             }
-            ValueData::Array(array) => self.prepare_manifest_xml_jsonml_array(array.view()),
+            ValueData::Array(array) => {
+                self.push_trace_item(TraceItem::ArrayItem { span: None, index });
+                self.prepare_manifest_xml_jsonml_array(array.view())?;
+                self.delay_trace_item();
+                Ok(())
+            }
             _ => Err(self.report_error(EvalErrorKind::Other {
                 span: None,
                 message: format!(
@@ -2376,10 +2397,15 @@ impl<'p> Evaluator<'_, 'p> {
             ValueData::Array(array) => {
                 let array = array.view();
 
-                for item in array.iter().rev() {
+                for (i, item) in array.iter().enumerate().rev() {
+                    self.push_trace_item(TraceItem::ArrayItem {
+                        span: None,
+                        index: i,
+                    });
                     self.state_stack
                         .push(State::FnFallible(Self::do_std_deep_join_array_item));
                     self.state_stack.push(State::DoThunk(item.view()));
+                    self.delay_trace_item();
                 }
 
                 Ok(())
@@ -2473,11 +2499,13 @@ impl<'p> Evaluator<'_, 'p> {
             let sub_array = sub_array.view();
             if let Some(sub_item0) = sub_array.first() {
                 let sub_item0 = sub_item0.view();
+                self.push_trace_item(TraceItem::ArrayItem { span: None, index });
                 self.state_stack.push(State::StdFlattenDeepArrayItem {
                     array: sub_array,
                     index: 0,
                 });
                 self.state_stack.push(State::DoThunk(sub_item0));
+                self.delay_trace_item();
             }
         } else {
             self.array_stack
@@ -3980,6 +4008,10 @@ impl<'p> Evaluator<'_, 'p> {
                     .find_object_field_thunk(&patch, 0, field_name)
                     .unwrap();
 
+                self.push_trace_item(TraceItem::ObjectField {
+                    span: None,
+                    name: field_name,
+                });
                 self.state_stack
                     .push(State::StdMergePatchField { name: field_name });
                 self.state_stack.push(State::StdMergePatchValue);
@@ -3994,6 +4026,7 @@ impl<'p> Evaluator<'_, 'p> {
                 } else {
                     self.value_stack.push(ValueData::Null);
                 }
+                self.delay_trace_item();
             }
 
             self.check_object_asserts(&patch);
